@@ -212,6 +212,12 @@ class FsSeam:
     def open(self, file, mode='r', buffering=-1, encoding=None, errors=None,
              newline=None, closefd=True, opener=None):
         writing = any(c in mode for c in 'wax+')
+        if (self.enabled and getattr(self, 'locale_encoding', None) and 'b' not in mode and encoding is None
+                and not isinstance(file, int) and self._inside(file)):
+            # simulated environment: the preferred encoding of the process is not UTF-8; a text file opened without an
+            # explicit encoding is read and written in the locale's encoding
+            encoding = self.locale_encoding
+            self._fire('locale-encoding')
         if (not self.enabled or not writing or isinstance(file, int)
                 or opener is not None or not self._inside(file)):
             return REAL_OPEN(file, mode, buffering, encoding, errors, newline,
